@@ -9,6 +9,15 @@ import Driver.Status
 import Driver.Run
 import Driver.Crash
 import Driver.Delayed
+import Driver.P05
+import Driver.P08
+import Driver.P09
+import Driver.P10
+import Driver.P11
+import Driver.P13
+import Driver.P15
+import Driver.P19
+import Driver.P20
 /-! `doitdrv`: one JSON request per stdin line, one JSON answer per stdout line.
     Request: `{"model": "<family>", ...}`; the family's handler defines the rest. -/
 open Lean
@@ -25,6 +34,15 @@ def dispatch (j : Json) : Json :=
   | "run" => Driver.Run.handle j
   | "crash" => Driver.Crash.handle j
   | "delayed" => Driver.Delayed.handle j
+  | "c05" => Driver.P05.handle j
+  | "c08" => Driver.P08.handle j
+  | "c09" => Driver.P09.handle j
+  | "c10" => Driver.P10.handle j
+  | "c11" => Driver.P11.handle j
+  | "c13" => Driver.P13.handle j
+  | "c15" => Driver.P15.handle j
+  | "c19" => Driver.P19.handle j
+  | "c20" => Driver.P20.handle j
   | "ping" => Json.mkObj [("pong", Json.bool true)]
   | m => Driver.err s!"unknown model {m}"
 
